@@ -22,11 +22,14 @@ class HarnessError(RuntimeError):
 
 
 class Zygote:
-    def __init__(self, hashseed: int, src_root: str, preload: str):
+    def __init__(self, hashseed, src_root: str, preload: str):
+        # a zygote key is "<PYTHONHASHSEED>" or "<PYTHONHASHSEED>@<variant>"; variants are further process configurations
+        key = str(hashseed)
+        hs, _, variant = key.partition("@")
         env = {
             "PATH": os.environ.get("PATH", "/usr/bin:/bin"),
             "HOME": os.environ.get("HOME", "/root"),
-            "PYTHONHASHSEED": str(hashseed),
+            "PYTHONHASHSEED": hs,
             "PYTHONDONTWRITEBYTECODE": "1",
             "OPENBLAS_NUM_THREADS": "1",
             "OMP_NUM_THREADS": "1",
@@ -37,8 +40,15 @@ class Zygote:
             "VERIF_PRELOAD": preload,
         }
         self.hashseed = hashseed
+        argv = [PYTHON, "-X", "utf8", os.path.join(VERIF_DIR, "simkit", "zygote.py")]
+        if variant == "clocale":
+            # a process whose locale encoding is not UTF-8 (legacy code page / LC_ALL=C without coercion and without UTF-8 mode)
+            env.update({"LC_ALL": "C", "LANG": "C", "PYTHONUTF8": "0", "PYTHONCOERCECLOCALE": "0", "PYTHONIOENCODING": "utf-8:backslashreplace"})
+            argv = [PYTHON, os.path.join(VERIF_DIR, "simkit", "zygote.py")]
+        elif variant:
+            raise ValueError(f"unknown zygote variant {variant!r}")
         self.proc = subprocess.Popen(
-            [PYTHON, "-X", "utf8", os.path.join(VERIF_DIR, "simkit", "zygote.py")],
+            argv,
             stdin=subprocess.PIPE,
             stdout=subprocess.PIPE,
             stderr=None,
